@@ -68,6 +68,11 @@ def gen(case):
     kinds = ['north_up', 'rotated', 'rotated', 'anisotropic', 'flipped']
     wk = [kinds[int(rng.integers(0, 5))], kinds[int(rng.integers(0, 5))]]
     wcss = [make_wcs(rng, shape, k) for k in wk]
+    # both exposures look at the same field: without this the second WCS maps the sky positions ~1e7 px away from
+    # its tangent point, where the TAN scale makes the pixel apertures thousands of pixels wide (one exact mask
+    # then takes minutes: a shard timeout = inconclusive run at VERIF_SEED=3)
+    wcss[1].wcs.crval = [wcss[0].wcs.crval[0] + float(rng.uniform(-3, 3)) * 1e-4,
+                         wcss[0].wcs.crval[1] + float(rng.uniform(-3, 3)) * 1e-4]
     for k in wk:
         case.note('axis2_wcs:' + k)
     scale_as = float(np.abs(wcss[0].wcs.cdelt[0]) if wk[0] == 'north_up' else
